@@ -226,10 +226,10 @@ func specRel(opts []layers.TCPOption, a int, o int, isn uint32) uint32 {
 //@ requires[C10.send.open]  selb(isOpen, ref(s.sink))
 //@ requires[pre.len]      s.state != nil ==> len(s.sendTimes) == int(s.params.ParallelParams.MaxTTL)+1
 //@ requires[pre.past]     forall(k, 0, len(s.sendTimes), s.sendTimes[k] <= now())
-//@ ensures[C06.once]      ret0 == nil ==> specInv(s) && specInRange(s, uint32(ttl)) && old(s.sendTimes[ttl]) == 0 && s.sendTimes[ttl] != 0
+//@ ensures[C01+C06.once]      ret0 == nil ==> specInv(s) && specInRange(s, uint32(ttl)) && old(s.sendTimes[ttl]) == 0 && s.sendTimes[ttl] != 0
 // the probe is registered (matchable by the receiver) before it is on the wire: a reply can never overtake its own bookkeeping
-//@ before Sink.WriteTo assert[C02+C05+C06.send.registered] s.sendTimes[ttl] != 0
-//@ ensures[C06.others]    forall(k, 0, len(s.sendTimes), k != int(ttl) ==> s.sendTimes[k] == old(s.sendTimes[k]))
+//@ before Sink.WriteTo assert[C01+C02+C05+C06.send.registered] s.sendTimes[ttl] != 0
+//@ ensures[C01+C06.others]    forall(k, 0, len(s.sendTimes), k != int(ttl) ==> s.sendTimes[k] == old(s.sendTimes[k]))
 //@ ensures[C05.stamp]     ret0 == nil ==> wrN == old(wrN)+1 && s.sendTimes[ttl] <= wrClock && s.sendTimes[ttl] >= old(now())
 //@ ensures[C05.past]      forall(k, 0, len(s.sendTimes), s.sendTimes[k] <= now())
 //@ ensures[C06.wire.ttl]  ret0 == nil ==> ghost(ser.ttl) == int(ttl) && ghost(ser.proto) == 6 && ghost(ser.version) == 4 && ghost(ser.ipid) == 41821
@@ -255,7 +255,7 @@ func specRel(opts []layers.TCPOption, a int, o int, isn uint32) uint32 {
 //@ ensures[C09+C20.recv.class]  ret1 != nil && !chain(ret1, *common.ReceiveProbeNoPktError) && !chain(ret1, *common.BadPacketError) && !chain(ret1, *NotSupportedError) ==> ioFail || s.state == nil
 //@ ensures[C09.recv.io]     ioFail == old(ioFail) || ret1 != nil
 //@ ensures[C01.recv.fresh]  ret0 != nil ==> fresh(ret0)
-//@ ensures[C09.recv.state]  forall(k, 0, len(s.sendTimes), s.sendTimes[k] == old(s.sendTimes[k]))
+//@ ensures[C01+C09.recv.state]  forall(k, 0, len(s.sendTimes), s.sendTimes[k] == old(s.sendTimes[k]))
 //@ modifies s.mu, packets.FrameParser.IP4, packets.FrameParser.IP6, packets.FrameParser.TCP, packets.FrameParser.ICMP4, packets.FrameParser.ICMP6, packets.FrameParser.Payload, packets.FrameParser.Layers, gopacket.DecodingLayerParser, elems(s.buffer), ghost clock, ghost ioFail
 
 // C11 isolation: a selective ACK genuine for two SACK runs forces the same 4-tuple (one kernel connection each, so the
